@@ -157,7 +157,7 @@ func ExtractSingleBoolCommentTag(marker string, key string, defaultVal bool, lin
 func ExtractFunctionStyleCommentTags(marker string, tagNames []string, lines []string) (map[string][]Tag, error) {
 	stripTrailingComment := func(in string) string {
 		parts := strings.SplitN(in, "//", 2)
-		return strings.TrimSpace(parts[0])
+		return strings.TrimRightFunc(parts[0], unicode.IsSpace)
 	}
 
 	out := map[string][]Tag{}
@@ -169,8 +169,10 @@ func ExtractFunctionStyleCommentTags(marker string, tagNames []string, lines []s
 		if !strings.HasPrefix(line, marker) {
 			continue
 		}
-		line = stripTrailingComment(line)
-		kv := strings.SplitN(line[len(marker):], "=", 2)
+		// Look for the trailing comment after the marker only, so that a marker
+		// which itself contains "//" or ends in a space cannot be cut short.
+		line = stripTrailingComment(line[len(marker):])
+		kv := strings.SplitN(line, "=", 2)
 		key := kv[0]
 		val := ""
 		if len(kv) == 2 {
